@@ -17,6 +17,11 @@ for d in sorted(glob.glob(os.path.join(HERE, 'seeded', 'C*-m*'))):
         continue
     if not os.path.exists(os.path.join(HERE, 'checks', pid.lower() + '.py')):
         continue
+    m0 = json.load(open(d + '/meta.json'))
+    if m0.get('obsolete'):
+        results[name] = {'applies': True, 'obsolete': m0['obsolete'][:200], 'caught': None, 'summary': m0.get('summary', '')[:200], 'repo_head': head, '_run': os.getpid()}
+        print(name, 'OBSOLETE', flush=True)
+        continue
     tmp = tempfile.mkdtemp(prefix='seedmx.')
     wt = tmp + '/wt'
     try:
@@ -53,5 +58,5 @@ with open(os.path.join(HERE, 'seeded', 'RESULTS.md'), 'w') as f:
     f.write('| seeded change | what it changes | caught by quick tier | sub-properties that flag it |\n|---|---|---|---|\n')
     for k in sorted(results):
         r = results[k]
-        f.write('| %s | %s | %s | %s |\n' % (k, r.get('summary', '').replace('|', '/'), 'yes' if r.get('caught') else ('patch no longer applies' if not r.get('applies') else 'NO'), ', '.join(r.get('subs', []))))
-print('caught %d of %d' % (sum(1 for r in results.values() if r.get('caught')), len(results)))
+        f.write('| %s | %s | %s | %s |\n' % (k, r.get('summary', '').replace('|', '/'), 'yes' if r.get('caught') else ('neutralised by a fix commit' if r.get('obsolete') else ('patch no longer applies' if not r.get('applies') else 'NO')), ', '.join(r.get('subs', []))))
+print('caught %d of %d (%d neutralised by fix commits)' % (sum(1 for r in results.values() if r.get('caught')), sum(1 for r in results.values() if not r.get('obsolete')), sum(1 for r in results.values() if r.get('obsolete'))))
